@@ -154,7 +154,7 @@ def main():
         }],
         "checks": checks,
         "not_applicable": [{"property_id": p, "reason": NOT_YET} for p in ALL if p not in CHECKS],
-        "notes": "See DESIGN.md. known_findings.json lists fixed (D1-D8, D11, D12, D15) and known (D9, D10, D13, D14) findings; seeded/ holds the mutation-validation patches.",
+        "notes": "See DESIGN.md. known_findings.json lists fixed (D1-D8, D11, D12, D15, D16) and known (D9, D10, D13, D14) findings; seeded/ holds the 138 mutation-validation patches of four rounds.",
     }
     with open(os.path.join(VERIF, "MANIFEST.json"), "w") as f:
         json.dump(m, f, indent=1)
